@@ -620,7 +620,11 @@ func runC04(prop string, seed int64, count int) {
 					{0x80, 0x00, 0x00, 0x00, 0x00, 0x00, 0x00, 0x00},
 					{0xff, 0xff, 0xff, 0xff, 0xff, 0xff, 0xff, 0xff},
 					{0x7f, 0xff, 0xff, 0xff, 0xff, 0xff, 0xff, 0xff},
-				}[rng.Intn(7)]
+					// not varints at all: ten bytes whose last one overflows 64 bits, more than ten bytes, continuation bytes only
+					{0x85, 0x80, 0x80, 0x80, 0x80, 0x80, 0x80, 0x80, 0x80, 0x02},
+					{0x85, 0x80, 0x80, 0x80, 0x80, 0x80, 0x80, 0x80, 0x80, 0x80, 0x00},
+					{0x80, 0x80, 0x80, 0x80, 0x80, 0x80, 0x80, 0x80, 0x80, 0x80, 0x80, 0x80, 0x80, 0x80},
+				}[rng.Intn(10)]
 				stream = append(append([]byte(nil), hd...), randPayload(rng, rng.Intn(20))...)
 			}
 			finI = rng.Intn(3)
